@@ -859,6 +859,12 @@ func run(sc *Scenario) (st *stats, err error) {
 	if verr != nil {
 		return st, fmt.Errorf("queue (second generator): %v", verr)
 	}
+	if b.err != nil && rejectable && !sc.seededDeterministically() {
+		// a clock-seeded configuration with a value that is rejected once it is advanced: whether a run gets that
+		// far within the budget depends on the deltas it draws - this run did, the first did not
+		st.label("rejectable-value-advanced-in-a-later-clock-seeded-run")
+		return st, nil
+	}
 	if b.err != nil {
 		return st, fmt.Errorf("reproducible: second generator from an equal configuration failed with %q, the first did not", b.err)
 	}
@@ -884,6 +890,10 @@ func run(sc *Scenario) (st *stats, err error) {
 	c, verr := pull(queue.New(false, sc.Seed, cfgA), budget)
 	if verr != nil {
 		return st, fmt.Errorf("queue (generator on the reused configuration): %v", verr)
+	}
+	if c.err != nil && rejectable && !sc.seededDeterministically() {
+		st.label("rejectable-value-advanced-in-a-later-clock-seeded-run")
+		return st, nil
 	}
 	if c.err != nil {
 		return st, fmt.Errorf("config: a second generator built from the caller's configuration object failed with %q, the first did not", c.err)
